@@ -24,8 +24,8 @@ class Color(enum.Enum):
     B = 3
 
 
-UNIVERSE: Tuple[Any, ...] = (True, False, 0, 1, 2, 1.5, "a", "", None, Color.R, Color.G, Color.B)
-TYPES: Tuple[type, ...] = (bool, int, float, str, type(None), Color, object)
+UNIVERSE: Tuple[Any, ...] = (True, False, 0, 1, 2, 1.5, "a", "", None, Color.R, Color.G, Color.B, bool, int, str, float)
+TYPES: Tuple[type, ...] = (bool, int, float, str, type(None), Color, object, type)
 PROMOTION = {float: (int,), complex: (float, int)}
 
 
@@ -51,6 +51,12 @@ def members(v: Obj) -> FrozenSet[int]:
         for x in v.get("vals", None):
             out = out | members(x)
         return out
+    if k == "SubclassValue":
+        inner = v.get("typ", None)
+        if not (isinstance(inner, Obj) and inner._kind == "TypedValue"):
+            raise AnchorError("narrowing model: SubclassValue of something other than a class")
+        t = inner.get("typ", None)
+        return frozenset(i for i, o in enumerate(UNIVERSE) if isinstance(o, type) and issubclass(o, t))
     raise AnchorError(f"narrowing model: membership of {k} is not defined")
 
 
@@ -66,12 +72,60 @@ def describe(v: Any) -> str:
         return v.get("typ", None).__name__
     if k == "MultiValuedValue":
         return " | ".join(describe(x) for x in v.get("vals", None)) or "Never"
+    if k == "SubclassValue":
+        return f"type[{describe(v.get('typ', None))}]"
     return k
+
+
+class EqObj(Obj):
+    """Model value with the structural equality of the real dataclasses (literals type-strict)."""
+
+    def key(self) -> Any:
+        k, a = self._kind, self._attrs
+        if k == "KnownValue":
+            val = a["val"]
+            return ("K", type(val).__name__, repr(val))
+        if k == "TypedValue":
+            return ("T", a["typ"].__qualname__)
+        if k == "AnyValue":
+            return ("A",)
+        if k == "MultiValuedValue":
+            return ("U", tuple(x.key() for x in a["vals"]))
+        if k == "SubclassValue":
+            return ("S", a["typ"].key())
+        raise AnchorError(f"narrowing model: no key for {k}")
+
+    def __eq__(self, other: object) -> bool:
+        return isinstance(other, EqObj) and self.key() == other.key()
+
+    def __ne__(self, other: object) -> bool:
+        return not self.__eq__(other)
+
+    def __hash__(self) -> int:
+        return hash(self.key())
+
+
+def _bare_type_into_subclass(other: Obj, me: Obj) -> bool:
+    """SubclassValue.can_assign accepts a bare `type` for every type[C] (it reads it as type[Any]);
+    a union accepts what one of its members accepts."""
+    if not (other._kind == "TypedValue" and other.get("typ", None) is type):
+        return False
+    if me._kind == "SubclassValue":
+        return True
+    return me._kind == "MultiValuedValue" and any(x._kind == "SubclassValue" for x in me.get("vals", None))
 
 
 class NarrowModel:
     def __init__(self, prog: Program) -> None:
         self.prog = prog
+        # the assignability oracle is set inclusion over the universe, plus the one gradual rule the real
+        # SubclassValue.can_assign has (read from its source, so the oracle follows the code if the arm goes away)
+        sub = prog.func("value", "SubclassValue.can_assign")
+        self.bare_type_is_gradual = any(
+            isinstance(n, ast.If) and isinstance(n.test, ast.Compare) and isinstance(n.test.ops[0], ast.Is) and ast.unparse(n.test.left).endswith(".typ") and ast.unparse(n.test.comparators[0]) == "type"
+            and any(isinstance(b, ast.Return) and isinstance(b.value, ast.Dict) and not b.value.keys for b in n.body)
+            for n in ast.walk(sub)
+        )
         f = lambda q: prog.func("predicates", q)  # noqa: E731
         self.calls = {
             "IsAssignablePredicate": f("IsAssignablePredicate.__call__"),
@@ -103,16 +157,18 @@ class NarrowModel:
     # -------------------------------------------------------------- values
     def value(self, kind: str, payload: Any = None) -> Obj:
         if kind == "AnyValue":
-            v = Obj("AnyValue")
+            v = EqObj("AnyValue")
         elif kind == "KnownValue":
-            v = Obj("KnownValue", val=payload)
+            v = EqObj("KnownValue", val=payload)
         elif kind == "TypedValue":
-            v = Obj("TypedValue", typ=payload)
+            v = EqObj("TypedValue", typ=payload)
         elif kind == "MultiValuedValue":
-            v = Obj("MultiValuedValue", vals=list(payload))
+            v = EqObj("MultiValuedValue", vals=list(payload))
+        elif kind == "SubclassValue":
+            v = EqObj("SubclassValue", typ=payload)
         else:
             raise AnchorError(kind)
-        v._attrs["is_assignable"] = lambda other, ctx=None, me=v: members(other) <= members(me)
+        v._attrs["is_assignable"] = lambda other, ctx=None, me=v: members(other) <= members(me) or (self.bare_type_is_gradual and _bare_type_into_subclass(other, me))
         return v
 
     def unite(self, args: List[Any]) -> Obj:
